@@ -1063,4 +1063,255 @@ Section CrashP.
       apply (IH st1 s1 (fs_step F o) st' s' (SInv_step W s F st o st1 s1 I Ew Es)
                 (CInv_step s F st o st1 s1 I CI Hok Ew Es) Hrun).
   Qed.
+  (* ================= (b) a crash inside commit_changes ================= *)
+
+  Definition isflush (w : pwrite) : Prop := match w with PFlush _ => True | _ => False end.
+  Definition nodel (w : pwrite) : Prop := match w with PBlockDel _ _ => False | _ => True end.
+
+  Lemma apply_flushes p : Forall isflush p -> forall P, apply_pwrites P p = P.
+  Proof.
+    induction 1 as [|w p Hw Hp IH]; intros P; [reflexivity|].
+    rewrite apply_pwrites_cons. destruct w; try contradiction. cbn [apply_pwrite]. apply IH.
+  Qed.
+
+  Lemma present_stays p : Forall nodel p -> forall P k,
+    kv_get (p_hash P) k <> None -> kv_get (p_hash (apply_pwrites P p)) k <> None.
+  Proof.
+    induction 1 as [|w p Hw Hp IH]; intros P k Hk; [exact Hk|].
+    rewrite apply_pwrites_cons. apply IH.
+    destruct w as [k1 v|k1|k1 h|k1|wh k1 v|wh k1|wh|x]; try (destruct wh as [|[q|q|]]);
+      cbn [apply_pwrite p_hash]; try exact Hk; try contradiction.
+    rewrite kv_get_put. destruct (k1 =? k); [discriminate|exact Hk].
+  Qed.
+
+  Lemma put_persists p : Forall nodel p -> forall P k v,
+    In (PBlockPut 0 k v) p -> kv_get (p_hash (apply_pwrites P p)) k <> None.
+  Proof.
+    induction 1 as [|w p Hw Hp IH]; intros P k v Hin; [destruct Hin|].
+    rewrite apply_pwrites_cons. destruct Hin as [->|Hin]; [|apply (IH _ k v Hin)].
+    apply (present_stays p Hp). cbn [apply_pwrite p_hash]. rewrite kv_get_put, N.eqb_refl. discriminate.
+  Qed.
+
+  Lemma bputs_wok which c n M :
+    (forall x, In x (map fst c) -> n < x /\ x <= M) -> Forall (wok n M) (bputs which c).
+  Proof.
+    intros H. unfold bputs. apply Forall_app. split; [|repeat constructor].
+    apply Forall_forall. intros w Hw. apply in_map_iff in Hw as (e & <- & He). cbn [wok].
+    apply H. apply in_map. exact He.
+  Qed.
+
+  Lemma bputs_nonv which c : Forall nonv (bputs which c).
+  Proof.
+    unfold bputs. apply Forall_app. split; [|repeat constructor].
+    apply Forall_forall. intros w Hw. apply in_map_iff in Hw as (e & <- & He). exact I.
+  Qed.
+
+  Lemma bputs_nodel which c : Forall nodel (bputs which c).
+  Proof.
+    unfold bputs. apply Forall_app. split; [|repeat constructor].
+    apply Forall_forall. intros w Hw. apply in_map_iff in Hw as (e & <- & He). exact I.
+  Qed.
+
+  Lemma isv_nodel w : isv w -> nodel w.
+  Proof. destruct w; cbn; tauto. Qed.
+
+  Lemma Forall_impl' {A} (P Q : A -> Prop) l : (forall a, P a -> Q a) -> Forall P l -> Forall Q l.
+  Proof. intros H HF. apply (Forall_impl Q H HF). Qed.
+
+  Lemma SInv_ext s cur sav cur' sav' st :
+    SInv W s (cur, sav) st -> (forall k m, cur k m = cur' k m) -> (forall k m, sav k m = sav' k m) ->
+    SInv W s (cur', sav') st.
+  Proof.
+    intros [It Imax Ilbn Ikeys Idb Ih Ihc Iopen Icl] H1 H2. constructor; try assumption.
+    destruct It as (clk & sclk & TR & Hc1 & Hc2). exists clk, sclk. split; [|split; assumption].
+    cbn [fst snd] in *. destruct TR as [Hcells Hnd Hd Hcd]. constructor; try assumption.
+    intros k. cbn [ts_cur ts_sav ts_clk ts_sclk] in *.
+    apply (CellRepr_ext _ (cur k) _ (sav k)); [apply Hcells|apply H1|apply H2].
+  Qed.
+
+  (* the files as they are at a commit point ARE the state as of the committed height *)
+  Lemma recovered_at_commit_point s F st hc :
+    SInv W s F st -> CInv s F st -> w_hc st = Some hc ->
+    Recovered s F st (reopen (persistent s)) hc.
+  Proof.
+    intros I CI Ehc. destruct F as [cur sav].
+    assert (Hwf : wf_step W st SClear = Some (mkWf (Some hc) (w_m st) (Some hc) false None)).
+    { cbn [wf_step]. rewrite Ehc. reflexivity. }
+    assert (Hs : sto_step W s SClear = Ok (reopen (persistent s))) by reflexivity.
+    pose proof (SInv_step W s (cur, sav) st SClear _ _ I Hwf Hs) as I'. cbn [fs_step] in I'.
+    destruct CI as [Hh Hb Hr Hord Hag Hfs Hfc Hhc Hrow Hemp]. cbn [fst snd] in *.
+    unfold hcN in Hfs. rewrite Ehc in Hfs.
+    assert (Hdbmax : forall t, BT t st -> forall x, kv_get (b_db t) x <> None -> x <= hc).
+    { intros t B x Hx. apply kv_get_in_keys in Hx. destruct (bt_db _ _ B x Hx) as (hc' & E & Hle).
+      rewrite Ehc in E. injection E as <-. exact Hle. }
+    assert (Hrows : forall t, BT t st -> forall x,
+               b_get (mkBTable (b_db t) []) x = if x <=? hc then kv_get (b_db t) x else None).
+    { intros t B x. unfold b_get. cbn [b_cache b_db kv_get].
+      destruct (N.leb_spec x hc); [reflexivity|].
+      destruct (kv_get (b_db t) x) eqn:E; [|reflexivity].
+      pose proof (Hdbmax t B x ltac:(rewrite E; discriminate)). lia. }
+    assert (Hlast : kv_last_key (b_db (st_hash s)) = Some hc).
+    { apply last_key_is; [apply Hh|apply Hhc; exact Ehc|].
+      intros x Hx. apply (Hdbmax _ Hh). apply kv_get_in_keys. exact Hx. }
+    assert (Hext : forall k m, sav k m = s_reorg (cur k) hc m).
+    { intros k m. unfold s_reorg. rewrite (Hag hc Ehc k (N.min m hc)) by lia.
+      destruct (N.le_gt_cases m hc); [rewrite N.min_l by lia; reflexivity|].
+      rewrite N.min_r by lia. apply Hfs. lia. }
+    unfold Recovered. cbn [fst].
+    split; [|split; [|split; [|split; [|split; [|split]]]]].
+    - intros k.
+      rewrite (store_point_read W _ _ _ k (N.max (w_m st) hc) I')
+        by (unfold bound, dstamp; cbn [w_m w_open w_dirty]; lia).
+      cbn [fst]. rewrite Hext. unfold s_reorg. f_equal. f_equal. lia.
+    - intros x. exact (Hrows _ Hh x).
+    - intros x. exact (Hrows _ Hb x).
+    - intros x. exact (Hrows _ Hr x).
+    - unfold latest_height, b_last_key.
+      cbn [reopen persistent st_lbn st_hash b_db b_cache p_hash kv_last_key]. rewrite Hlast. reflexivity.
+    - unfold next_height, b_last_key.
+      cbn [reopen persistent st_lbn st_hash b_db b_cache p_hash kv_last_key]. rewrite Hlast. reflexivity.
+    - apply (SInv_ext _ sav sav); [exact I'|exact Hext|exact Hext].
+  Qed.
+
+  (* the guard of the engine on a reopened store *)
+  Lemma guard_on_reopened d n M :
+    ksorted (p_hash d) -> kv_get (p_hash d) n <> None ->
+    (forall x, kv_get (p_hash d) x <> None -> x <= M) -> M <= n + W ->
+    exists L, latest_height (reopen d) = L /\ kv_get (p_hash d) L <> None /\ n <= L /\
+              (forall x, kv_get (p_hash d) x <> None -> x <= L) /\
+              engine_reorg_guard W 0 (reopen d) n = if n =? L then RvNoop else RvDo.
+  Proof.
+    intros Hs Hn HM Hwin.
+    assert (Hin : In n (map fst (p_hash d))) by (apply kv_get_in_keys; exact Hn).
+    destruct (p_hash d) as [|a l] eqn:E; [destruct Hin|]. rewrite <- E in *.
+    destruct (ksorted_last_some (p_hash d) ltac:(rewrite E; discriminate)) as (L & HL).
+    assert (HLin : kv_get (p_hash d) L <> None).
+    { apply kv_get_in_keys. apply kv_last_key_in. exact HL. }
+    assert (Hmax : forall x, kv_get (p_hash d) x <> None -> x <= L).
+    { intros x Hx. apply (ksorted_last_max _ _ _ Hs HL). apply kv_get_in_keys. exact Hx. }
+    assert (Hlh : latest_height (reopen d) = L).
+    { unfold latest_height, b_last_key. cbn [reopen st_lbn st_hash b_db b_cache]. rewrite HL. reflexivity. }
+    exists L. split; [exact Hlh|]. split; [exact HLin|]. split; [apply Hmax; exact Hn|]. split; [exact Hmax|].
+    unfold engine_reorg_guard. rewrite Hlh. cbn [N.eqb negb].
+    pose proof (Hmax n Hn). pose proof (HM L HLin).
+    destruct (N.ltb_spec L n); [lia|]. destruct (N.ltb_spec W (L - n)); [lia|]. reflexivity.
+  Qed.
+
+  Lemma psorted_persistent s F st : SInv W s F st -> CInv s F st -> psorted (persistent s).
+  Proof.
+    intros [It _ _ _ _ _ _ _ _] CI. destruct It as (clk & sclk & TR & _).
+    unfold psorted, persistent. cbn [p_db p_cdb p_hash p_blk p_raw].
+    split; [apply (tr_db_sorted _ _ _ TR)|]. split; [apply (tr_cdb_sorted _ _ _ TR)|].
+    split; [apply (bt_s _ _ (ci_hash _ _ _ CI))|]. split; [apply (bt_s _ _ (ci_blk _ _ _ CI))|].
+    apply (bt_s _ _ (ci_raw _ _ _ CI)).
+  Qed.
+
+  Theorem store_crash_in_commit_recovers s F st ws p q n :
+    SInv W s F st -> CInv s F st -> w_dirty st = false ->
+    commit_script W s = Ok ws -> ws = p ++ q ->
+    kv_get (b_db (st_hash s)) n <> None ->
+    w_m st <= n + W ->
+    (exists hc, w_hc st = Some hc /\ n <= hc) /\
+    engine_reorg_guard W 0 (reopen (apply_pwrites (persistent s) p)) n <> RvRefused /\
+    exists s2, engine_reorg W (reopen (apply_pwrites (persistent s) p)) n = Ok s2 /\
+               Recovered s F st s2 n.
+  Proof.
+    intros I CI Hclean Hcs Hpq Hn Hwin.
+    assert (Hnin : In n (map fst (b_db (st_hash s)))) by (apply kv_get_in_keys; exact Hn).
+    destruct (bt_db _ _ (ci_hash _ _ _ CI) n Hnin) as (hc & Ehc & Hnhc).
+    destruct (ci_ord _ _ _ CI hc Ehc) as (h & Eh & Hhch).
+    split; [exists hc; split; assumption|].
+    pose proof (psorted_persistent s F st I CI) as Hps.
+    pose proof (next_height_bound W s st F I Hclean) as Hnext.
+    pose proof I as [It Imax Ilbn Ikeys Idb Ih Ihc Iopen Icl].
+    pose proof (Ih h Eh) as Hhm.
+    destruct It as (clk & sclk & TR & Hclk & Hsclk).
+    assert (Hbd : bound st = w_m st).
+    { unfold bound, dstamp. rewrite (Icl Hclean), Hclean. lia. }
+    assert (Htop : top st = h) by (unfold top; rewrite Eh, Hclean; reflexivity).
+    destruct F as [cur sav]. cbn [fst snd] in *.
+    (* the script *)
+    unfold commit_script in Hcs.
+    destruct (vscript W (next_height s) (t_cache (st_t s))) as [v| |] eqn:Hv; cbn [rbind] in Hcs; try discriminate.
+    injection Hcs as Hws.
+    set (A := PFlush 3 :: bputs 0 (b_cache (st_hash s)) ++ bputs 1 (b_cache (st_blk s)) ++ bputs 2 (b_cache (st_raw s))).
+    assert (HwsA : ws = A ++ v).
+    { rewrite <- Hws. unfold A. cbn [app]. rewrite <- !app_assoc. reflexivity. }
+    assert (Hcachekeys : forall t, BT t st -> forall x, In x (map fst (b_cache t)) -> hc < x /\ x <= w_m st).
+    { intros t B x Hx. split; [apply (bt_lo _ _ B x hc Hx Ehc)|].
+      pose proof (bt_hi _ _ B x Hx) as H. unfold cache_hi in H. rewrite Eh, Htop in H. lia. }
+    assert (HwokA : Forall (wok hc (w_m st)) A).
+    { unfold A. constructor; [exact Logic.I|]. apply Forall_app. split; [|apply Forall_app; split];
+        apply bputs_wok; [apply (Hcachekeys _ (ci_hash _ _ _ CI))|apply (Hcachekeys _ (ci_blk _ _ _ CI))
+                         |apply (Hcachekeys _ (ci_raw _ _ _ CI))]. }
+    assert (Hwok : Forall (wok hc (w_m st)) ws).
+    { rewrite HwsA. apply Forall_app. split; [exact HwokA|].
+      apply (Forall_impl' isv); [apply isv_wok|apply (vscript_isv _ _ _ Hv)]. }
+    assert (HnonvA : Forall nonv A).
+    { unfold A. constructor; [exact Logic.I|]. apply Forall_app. split; [|apply Forall_app; split]; apply bputs_nonv. }
+    assert (Hnodel : Forall nodel ws).
+    { rewrite HwsA. apply Forall_app. split.
+      - unfold A. constructor; [exact Logic.I|]. apply Forall_app. split; [|apply Forall_app; split]; apply bputs_nodel.
+      - apply (Forall_impl' isv); [apply isv_nodel|apply (vscript_isv _ _ _ Hv)]. }
+    set (d' := apply_pwrites (persistent s) p).
+    destruct (apply_wok hc (w_m st) p (Forall_prefix _ _ _ _ Hwok Hpq) (persistent s)) as (Hmaxd & Bh & Bb & Br).
+    fold d' in Hmaxd, Bh, Bb, Br. cbn [persistent p_hash p_blk p_raw p_max] in Hmaxd, Bh, Bb, Br.
+    assert (Hpsd : psorted d') by (apply apply_pwrites_sorted; exact Hps).
+    (* the cells *)
+    assert (Hclass : forall k,
+               let c := view (st_t s) k in let K := pcell d' k in
+               K = crash_none c \/ crash_mid W (next_height s) c = Ok K \/ crash_both W (next_height s) c = Ok K).
+    { intros k. cbn zeta. rewrite HwsA in Hpq.
+      destruct (app_eq_app _ _ _ _ Hpq) as (l & [[HA Hq]|[Hp Hvl]]).
+      - left. assert (Hnv : Forall nonv p) by (apply (Forall_prefix _ _ _ _ HnonvA HA)).
+        destruct (apply_nonv p Hnv (persistent s)) as [E1 E2]. unfold pcell, d'. rewrite E1, E2. reflexivity.
+      - destruct (apply_nonv A HnonvA (persistent s)) as [E1 E2].
+        destruct (vscript_prefix_cells _ _ (tr_nodup _ _ _ TR) _ Hv l q Hvl (apply_pwrites (persistent s) A))
+          as (_ & Hc). specialize (Hc k). cbn zeta in Hc. rewrite E1, E2 in Hc.
+        unfold d'. rewrite Hp, apply_pwrites_app. exact Hc. }
+    assert (Hcells : forall k, exists c', c_reorg W n (pcell d' k) = Ok c' /\
+               CellRepr c' (s_reorg (cur k) n) (s_reorg (cur k) n) (w_m st) (w_m st)).
+    { intros k.
+      apply (cell_crash_recovers (view (st_t s) k) (cur k) (sav k) clk sclk (next_height s) hc n (w_m st)
+               (tr_cells _ _ _ TR k)); try lia.
+      - intros m Hm. apply (ci_agree _ _ _ CI hc Ehc k m Hm).
+      - apply Hclass. }
+    destruct (recover_general s (cur, sav) st d' n I Hclean Hwin Hpsd Hmaxd Hcells) as (s2 & Hs2 & Hrec);
+      try (intros x Hx; first [apply (proj1 Bh)|apply (proj1 Bb)|apply (proj1 Br)]; lia); try exact Hn; try lia.
+    (* the guard *)
+    destruct Hpsd as (_ & _ & Hsh & _ & _).
+    assert (Hnd' : kv_get (p_hash d') n <> None) by (rewrite (proj1 Bh n Hnhc); exact Hn).
+    assert (HM : forall x, kv_get (p_hash d') x <> None -> x <= w_m st).
+    { intros x Hx. destruct (proj2 Bh x Hx) as [H|H]; [|exact H]. apply Idb. apply kv_get_in_keys. exact H. }
+    destruct (guard_on_reopened d' n (w_m st) Hsh Hnd' HM Hwin) as (L & HL & HLin & HnL & HLmax & Hg).
+    unfold engine_reorg. rewrite Hg.
+    destruct (N.eqb_spec n L) as [HnLe|HnLne]; [|split; [discriminate|exists s2; split; assumption]].
+    split; [discriminate|].
+    (* no-op: nothing but flushes can have happened, and n is the committed height *)
+    assert (Hhcin : kv_get (p_hash d') hc <> None).
+    { rewrite (proj1 Bh hc ltac:(lia)). apply kv_get_in_keys. apply (ci_hc _ _ _ CI hc Ehc). }
+    assert (Hnhc' : n = hc) by (pose proof (HLmax hc Hhcin); lia).
+    assert (Hnoput : forall k v0, ~ In (PBlockPut 0 k v0) p).
+    { intros k v0 Hin.
+      pose proof (put_persists p (Forall_prefix _ _ _ _ Hnodel Hpq) (persistent s) k v0 Hin) as Hk.
+      fold d' in Hk. pose proof (HLmax k Hk).
+      assert (Hw : wok hc (w_m st) (PBlockPut 0 k v0)).
+      { apply (proj1 (Forall_forall _ _) (Forall_prefix _ _ _ _ Hwok Hpq) _ Hin). }
+      cbn [wok] in Hw. lia. }
+    assert (Hfl : Forall isflush p).
+    { clear Hclass Hwok HwokA HnonvA Hnodel. subst A.
+      destruct (b_cache (st_hash s)) as [|e c0'] eqn:Ec0.
+      - destruct (ci_empty _ _ _ CI Hclean Ec0) as (Et & E1 & E2).
+        rewrite Et in Hv. cbn in Hv. injection Hv as <-.
+        rewrite E1, E2 in HwsA. cbn in HwsA.
+        apply (Forall_prefix isflush ws p q); [rewrite HwsA; repeat constructor|exact Hpq].
+      - rewrite HwsA in Hpq. cbn [bputs map app] in Hpq.
+        destruct p as [|x [|y p']]; [constructor| |].
+        + cbn [app] in Hpq. injection Hpq as <- _. repeat constructor.
+        + cbn [app] in Hpq. injection Hpq as <- <- _. exfalso.
+          apply (Hnoput (fst e) (snd e)). right. left. reflexivity. }
+    exists (reopen d'). split; [reflexivity|].
+    unfold d'. rewrite (apply_flushes p Hfl). rewrite Hnhc'.
+    apply (recovered_at_commit_point s (cur, sav) st hc I CI Ehc).
+  Qed.
 End CrashP.
